@@ -114,6 +114,49 @@ func verif_harness_C08_encode_command() {
 	verif_assert(bytes.Equal(out, want.Bytes()), "C08.encode.output-is-exactly-the-input-records")
 }
 
+// C08/C09 — the encode command on an input that ends in an error (a truncated
+// input stream): every record decoded before the error has reached the output
+// in full, in order, when the command returns the error — the output holds
+// exactly those records, byte for byte, and nothing of a later one.
+//
+//verif:harness unwind=64 replay=none
+func verif_harness_C08_encode_command_input_error() { verifEncodeInputError() }
+
+//verif:harness unwind=64 replay=none
+func verif_harness_C09_encode_command_input_error() { verifEncodeInputError() }
+
+func verifEncodeInputError() {
+	if !verif_is_symbolic_run() {
+		return
+	}
+	recs := verifCmdRecords()
+	var out []byte
+	verifCmdEnv(recs, &out)
+	errTorn := io.ErrUnexpectedEOF
+	good := verif_choose("records_before_the_error", len(recs)+1)
+	verif_stub("github.com/tsenart/vegeta/v12.decoder", func(files []string) (vegeta.Decoder, io.Closer, error) {
+		inner := verifGobLikeDecoder(recs[:good])
+		return func(r *vegeta.Result) error {
+			if err := inner(r); err != io.EOF {
+				return err
+			}
+			return errTorn
+		}, multiCloser{}, nil
+	})
+	to := []string{encodingJSON, encodingCSV}[verif_choose("to", 2)]
+	verif_assert(encode([]string{"in"}, to, "out") == errTorn, "C09.encode.input-error-is-returned")
+	var want bytes.Buffer
+	enc := vegeta.NewJSONEncoder(&want)
+	if to == encodingCSV {
+		enc = vegeta.NewCSVEncoder(&want)
+	}
+	for _, r := range recs[:good] {
+		r := r
+		enc.Encode(&r)
+	}
+	verif_assert(bytes.Equal(out, want.Bytes()), "C09.encode.output-holds-exactly-the-records-decoded-before-the-error")
+}
+
 // C13 — the report command (histogram report): the report over what the
 // combined decoder yields equals the report computed directly from the records.
 //
